@@ -6,6 +6,7 @@ package harness
 // generated tunnelpb stubs. Semantics follow grpc-go (see carrier_conformance_test.go).
 
 import (
+	"bytes"
 	"context"
 	"fmt"
 	"io"
@@ -46,6 +47,44 @@ type Net struct {
 	WithBreak bool
 	// Label distinguishes several nets in thread names and taps.
 	Label string
+	// sent remembers, per queued frame (keyed by the first byte of its serialisation), the
+	// message value that was handed to Send: grpc allows a transport to use it lazily, so a
+	// sender must not modify it afterwards. It is serialised again at delivery and compared.
+	sent map[*byte]proto.Message
+}
+
+var detMarshal = proto.MarshalOptions{Deterministic: true}
+
+func (n *Net) remember(b []byte, m proto.Message) {
+	if len(b) == 0 {
+		return
+	}
+	if n.sent == nil {
+		n.sent = map[*byte]proto.Message{}
+	}
+	n.sent[&b[0]] = m
+}
+
+// checkUnmodified returns the bytes to deliver: what the message serialises to NOW (a lazy
+// transport would put exactly that on the wire); a difference to what it was at Send time is
+// recorded.
+func (n *Net) checkUnmodified(ms *MStream, b []byte, dir string) []byte {
+	if len(b) == 0 || n.sent == nil {
+		return b
+	}
+	m := n.sent[&b[0]]
+	if m == nil {
+		return b
+	}
+	delete(n.sent, &b[0])
+	b2, err := detMarshal.Marshal(m)
+	if err != nil || bytes.Equal(b, b2) {
+		return b
+	}
+	n.W.mu.Lock()
+	n.W.FrameMutations = append(n.W.FrameMutations, fmt.Sprintf("%s %s: a %T frame was modified after it had been handed to Send (%d bytes then, %d bytes at delivery)", ms.Name, dir, m, len(b), len(b2)))
+	n.W.mu.Unlock()
+	return b2
 }
 
 type netSvc struct {
@@ -318,7 +357,7 @@ func (c *mClientStream) CloseSend() error {
 
 func (c *mClientStream) SendMsg(m any) error {
 	n := c.net
-	b, err := proto.Marshal(m.(proto.Message))
+	b, err := detMarshal.Marshal(m.(proto.Message))
 	n.await("c.send:"+c.Name, c.MStream, func() bool {
 		return err != nil || n.room(c.c2s) || c.Finished || c.cErr != nil || c.cctx.Err() != nil || c.sErr != nil
 	})
@@ -343,6 +382,7 @@ func (c *mClientStream) SendMsg(m any) error {
 		return nil
 	}
 	c.c2s = append(c.c2s, b)
+	n.remember(b, m.(proto.Message))
 	c.C2SSent++
 	n.W.Tap.frame(c.MStream, true, m.(proto.Message), b, true)
 	return nil
@@ -377,7 +417,7 @@ func (c *mClientStream) RecvMsg(m any) error {
 		return status.FromContextError(c.cctx.Err()).Err()
 	}
 	if len(c.s2c) > 0 {
-		b := c.s2c[0]
+		b := n.checkUnmodified(c.MStream, c.s2c[0], "S>C")
 		c.s2c = c.s2c[1:]
 		c.S2CRecv++
 		n.W.Tap.delivered(c.MStream, false)
@@ -451,7 +491,7 @@ func (s *mServerStream) SetTrailer(md metadata.MD) {
 
 func (s *mServerStream) SendMsg(m any) error {
 	n := s.net
-	b, err := proto.Marshal(m.(proto.Message))
+	b, err := detMarshal.Marshal(m.(proto.Message))
 	n.await("s.send:"+s.Name, s.MStream, func() bool {
 		return err != nil || n.room(s.s2c) || s.sErr != nil || s.sctx.Err() != nil || s.cErr != nil || s.cctx.Err() != nil
 	})
@@ -482,6 +522,7 @@ func (s *mServerStream) SendMsg(m any) error {
 		return nil
 	}
 	s.s2c = append(s.s2c, b)
+	n.remember(b, m.(proto.Message))
 	s.S2CSent++
 	n.W.Tap.frame(s.MStream, false, m.(proto.Message), b, true)
 	return nil
@@ -501,7 +542,7 @@ func (s *mServerStream) RecvMsg(m any) error {
 		return status.FromContextError(err).Err()
 	}
 	if len(s.c2s) > 0 {
-		b := s.c2s[0]
+		b := n.checkUnmodified(s.MStream, s.c2s[0], "C>S")
 		s.c2s = s.c2s[1:]
 		s.C2SRecv++
 		n.W.Tap.delivered(s.MStream, true)
